@@ -89,7 +89,7 @@ func LoadProg(repoDir string, patterns []string, specDirs []string) (*Prog, erro
 		}
 	})
 	for fn := range ssautil.AllFunctions(prog) {
-		if fn.Synthetic != "" && fn.Object() == nil {
+		if fn.Synthetic != "" {
 			continue
 		}
 		P.Funcs[funcKey(fn)] = fn
@@ -227,6 +227,28 @@ func (P *Prog) typeFromAST(e ast.Expr, pkgPath string) (types.Type, error) {
 			return nil, err
 		}
 		return types.NewMap(k, v), nil
+	case *ast.IndexExpr:
+		if id, ok := e.X.(*ast.Ident); ok && id.Name == "set" {
+			k, err := P.typeFromAST(e.Index, pkgPath)
+			if err != nil {
+				return nil, err
+			}
+			return &RawMap{Key: k, Elem: types.Typ[types.Bool]}, nil
+		}
+		return nil, fmt.Errorf("unsupported generic type")
+	case *ast.IndexListExpr:
+		if id, ok := e.X.(*ast.Ident); ok && id.Name == "mmap" && len(e.Indices) == 2 {
+			k, err := P.typeFromAST(e.Indices[0], pkgPath)
+			if err != nil {
+				return nil, err
+			}
+			v, err := P.typeFromAST(e.Indices[1], pkgPath)
+			if err != nil {
+				return nil, err
+			}
+			return &RawMap{Key: k, Elem: v}, nil
+		}
+		return nil, fmt.Errorf("unsupported generic type")
 	case *ast.InterfaceType:
 		return types.NewInterfaceType(nil, nil), nil
 	case *ast.ParenExpr:
